@@ -677,6 +677,20 @@ def cycles_are_cut(F, res, sccs=None, rule="Q10"):
             why.append("no type lookups of functions found in InferCtx (anchor)")
         return not why, "; ".join(why) or "%d lookups of another function's type, each (or every call of the helper holding it) after the group was searched without success" % n
 
+    # both cuts lean on the import closure: it has to follow every import statement (a module accessor `b.g()` makes the types of
+    # two modules depend on each other just as an unqualified import does)
+    cq = F.fn("ide::def::scope::import_closure_query")
+    dq = FL.Defs(cq)
+    looks = [(b, t) for b, t in cq.calls() if (callee(t) or "").endswith("file_for_module_name")]
+    res.floor("module look-ups in import_closure_query", len(looks), 1)
+    for k, (b, t) in enumerate(looks):
+        dep = FL.depends(F, cq, dq, t["args"][-1], use_bb=b)
+        whole = any(x.endswith("module_imports") for x in dep["calls"])
+        sel = sorted(x for x in dep["calls"] if x.rsplit("::", 1)[-1] in ("unqualified_imports", "filter", "filter_map", "take", "skip", "take_while",
+                                                                           "skip_while", "find", "first", "last", "nth", "step_by"))
+        res.ob(rule, "cut/import-closure/every-import/%d" % k, "the import closure follows every import statement of a module (the table module_imports(), "
+               "nothing selected from it): two modules that import each other in any form are seen as a cycle", whole and not sel,
+               where=cq.loc(t["ln"]), how="the module name looked up comes from module_imports(): %s; selecting calls: %s" % (whole, sel))
     known["ModuleScopeQuery+ModuleScopeWithMapQuery"] = scope_cut
     known["InferFunctionGroupQuery+InferFunctionQuery"] = infer_cut
     for comp in sccs:
